@@ -282,8 +282,8 @@ func TestC11(t *testing.T) { runGenerated(t, propC11) }
 var propC12 = register(&Property{
 	ID: "C12",
 	Rule: "simple graphs (no parallel/antiparallel edges, no self-loops) in three regimes: small; wide (layers of 6-12 nodes); deep (ladders of 65-80 layers, the only way to reach layer indices >= 64) " +
-		"x both layerers x size-aware positioners x Polyline x NodeSpacing > 0 x LayerSpacing > 0 x a recording monitor; " +
-		"oracle: sum of the phase-3 'crossings' events == inversion count by x-order over all adjacent band pairs of the returned drawing; non-trivial = reported count >= 1 and >= 3 bands",
+		"x both layerers x size-aware positioners x Polyline x NodeSpacing >= 0 (1 case in 8 of the small/wide regimes uses 0..0.5) x LayerSpacing > 0 x a recording monitor; " +
+		"oracle: sum of the phase-3 'crossings' events == inversion count by x-order over all adjacent band pairs of the returned drawing (with t pairs tied in x: inversions <= reported <= inversions + t); non-trivial = reported count >= 1, >= 3 bands, no ties",
 	New:   func() any { return &Case{} },
 	Gen:   func(rt *rapid.T, s *Stats) any { return genC12(rt, s) },
 	Check: func(c any) *Outcome { return checkC12(c.(*Case)) },
@@ -329,6 +329,11 @@ func genC12(rt *rapid.T, st *Stats) *Case {
 	}
 	genOptions(rt, c, NodeIDs(c.Edges), OptSpec{CBs: allCB, Lays: lays, Poss: poss, Rts: []int{RtPolyline},
 		Thorough: false, Virt: true, Sizes: 1, IntForNS: true, NSZero: false, LSZero: false, DefaultsOK: true})
+	// boundary spacings: NodeSpacing 0 or below the NetworkSimplex positioner's rounding step. Neighbours may then share an
+	// x, and the order of a layer is held by zero-length constraints alone (seeded/r4-m12 dropped exactly those)
+	if (regime == "small" || regime == "wide") && chance(rt, "tiny_node_spacing", 1, 8) {
+		c.NS = ptr([]float64{0, 0, 0.001, 0.1, 0.3, 0.4, 0.5}[pick(rt, "tiny_ns", 7)])
+	}
 	return c
 }
 
@@ -392,8 +397,8 @@ func checkC12(c *Case) *Outcome {
 	if HasParallel(c.Edges) || CountSelfLoops(c.Edges) > 0 {
 		return o.failf("bad case: C12 is stated for graphs without parallel/antiparallel edges")
 	}
-	if c.Rt != RtPolyline || c.NodeSpacing() <= 0 || c.LayerSpacing() <= 0 || c.Pos == PosBK {
-		return o.failf("bad case: C12 needs Polyline routing, positive spacings and a size-aware positioner")
+	if c.Rt != RtPolyline || c.NodeSpacing() < 0 || c.LayerSpacing() <= 0 || c.Pos == PosBK {
+		return o.failf("bad case: C12 needs Polyline routing, a positive layer spacing and a size-aware positioner")
 	}
 	mon := &recMonitor{}
 	l, perr := c.Run(autog.WithMonitor(mon))
@@ -409,10 +414,14 @@ func checkC12(c *Case) *Outcome {
 		o.class("uncountable(polyline shape is C06's business)")
 		return o
 	}
-	drawn := countPieceCrossings(ps)
-	if drawn != mon.crossings {
-		return o.failf("monitor reported %d crossings (%d events), the returned drawing has %d (x-order inversions between adjacent bands)", mon.crossings, mon.crossEv, drawn)
+	// drawn = strict x-order inversions. Where two different nodes / bends of a band share an x (zero widths with zero
+	// spacing; the NetworkSimplex positioner rounds a centre distance below 0.5 to 0) the pair is undecidable from the
+	// coordinates: then drawn <= reported <= drawn + ties is all the drawing can say; without ties it is an equality.
+	drawn, ties := countPieceCrossingsTies(ps)
+	if mon.crossings < drawn || mon.crossings > drawn+ties {
+		return o.failf("monitor reported %d crossings (%d events), the returned drawing has %d (x-order inversions between adjacent bands; %d pairs tied in x)", mon.crossings, mon.crossEv, drawn, ties)
 	}
+	o.classIf(ties > 0, "ties_in_x(interval oracle)")
 	maxBands := 0
 	for _, nb := range v.NBand {
 		maxBands = max(maxBands, nb)
@@ -437,7 +446,7 @@ func checkC12(c *Case) *Outcome {
 		}
 	}
 	o.classIf(xw, "xwide(layer with >=65 nodes)")
-	o.NonTrivial = drawn >= 1 && maxBands >= 3
+	o.NonTrivial = drawn >= 1 && maxBands >= 3 && ties == 0
 	return o
 }
 
